@@ -26,6 +26,7 @@ type scen struct {
 	fmt   string // stpp | wvtt
 	langs []string
 	lang  string
+	repID string // Representation id as announced by the MPD (sweep over announced Representations); "" = time<fmt>-<lang>
 	c     int  // cue duration ms
 	cOmit bool // c = 900 by leaving the URL key out (default)
 	reg   int
@@ -38,7 +39,20 @@ type scen struct {
 }
 
 var cueDurs = []int{1, 100, 900, 1000, 1001, 1500, 2000, 3700}
-var langSets = [][]string{{"en", "sv", "xx"}, {"xx"}, {"sv", "en"}}
+// language sets by class: 0 plain two-letter tags, 1 BCP-47 tags with subtags, 2 tags sharing a primary subtag
+// (both orders) and three-letter tags
+var langSets = [][][]string{
+	{{"en", "sv", "xx"}, {"xx"}, {"sv", "en"}},
+	{{"pt-BR"}, {"en", "zh-Hans"}, {"en-GB-oxendict", "sv"}, {"zh-Hant", "zh-Hans"}},
+	{{"pt", "pt-BR"}, {"pt-BR", "pt"}, {"en-GB", "en", "en-GB-oxendict"}, {"swe", "eng"}, {"zh-Hans", "zh", "zho"}},
+}
+
+func (s scen) rep() string {
+	if s.repID != "" {
+		return s.repID
+	}
+	return "time" + s.fmt + "-" + s.lang
+}
 var modes = []string{"number", "time", "tlnr"}
 var starts = []int64{0, 7, 1000}
 
@@ -70,6 +84,7 @@ func extraLayouts(thorough bool) []assetgen.Layout {
 
 type subResult struct {
 	ev      tr.E
+	bodyDig string
 	regDes  string
 	cueDig  string
 	ncues   int
@@ -96,8 +111,8 @@ func (d *driver) fetchSub(s scen, rt *project.RepTruth, trex *mp4.TrexBox, url s
 	loopMS := rt.L * 1000 / rt.TS
 	r := d.env.S.Get(url)
 	e := tr.E{"ev": "sub", "k": n / N, "i": n % N, "st": r.Status, "url": url, "nrp": []int64{0, 0}, "tfdt": []int64{0, 0}, "dur": 0,
-		"cues": []any{}, "samples": []any{}, "regdefs": []string{}, "ph": -1, "base": "", "nsamp": 0, "nfrag": 0, "perr": ""}
-	res := subResult{ev: e}
+		"cues": []any{}, "samples": []any{}, "regdefs": []string{}, "ph": -1, "base": "", "lang": s.lang, "doclangs": []string{}, "nsamp": 0, "nfrag": 0, "perr": ""}
+	res := subResult{ev: e, bodyDig: project.Digest(r.Body)}
 	if r.Status != 200 {
 		return res
 	}
@@ -142,14 +157,17 @@ func (d *driver) fetchSub(s scen, rt *project.RepTruth, trex *mp4.TrexBox, url s
 	switch s.fmt {
 	case "stpp":
 		regdefs := []string{}
+		doclangs := []string{}
 		for _, sm := range o.samples {
 			total += int64(int32(sm.Dur))
-			rc, defs, refs, err := parseTTML(sm.Data)
+			rc, defs, refs, doclang, err := parseTTML(sm.Data)
 			if err != nil {
 				e["perr"] = err.Error()
 				addCue(0, 0, false, "", "")
+				doclangs = append(doclangs, "(unparsed)")
 				continue
 			}
+			doclangs = append(doclangs, doclang)
 			regdefs = append(regdefs, defs...)
 			for _, x := range rc {
 				addCue(x.begin-tfdt, x.end-tfdt, x.ok, x.text, x.reg)
@@ -159,6 +177,7 @@ func (d *driver) fetchSub(s scen, rt *project.RepTruth, trex *mp4.TrexBox, url s
 			}
 		}
 		e["regdefs"] = regdefs
+		e["doclangs"] = doclangs
 	case "wvtt":
 		t := int64(0)
 		for _, sm := range o.samples {
@@ -213,13 +232,42 @@ func sortStrings(a []string) {
 	}
 }
 
+// fetchInit requests the init segment of the scenario's Representation and projects timescale, sample entry and language
+// (elng if present, else the mdhd language).
+func (d *driver) fetchInit(s scen, c tl.Cfg) (*mp4.TrexBox, tr.E, string) {
+	u := fmt.Sprintf("%s/%s/init.mp4?nowMS=%d", c.Prefix(s.a.Name), s.rep(), s.ast*1000+10_000)
+	r := d.env.S.Get(u)
+	e := tr.E{"ev": "init", "st": r.Status, "ts": 0, "codec": "", "url": u, "lang": s.lang, "ilang": "", "mdhd": "", "elng": ""}
+	var trex *mp4.TrexBox
+	if r.Status == 200 {
+		if init, err := project.ParseInit(r.Body); err == nil && init.Moov != nil && init.Moov.Trak != nil && init.Moov.Trak.Mdia != nil {
+			mdia := init.Moov.Trak.Mdia
+			e["ts"] = clamp(int64(mdia.Mdhd.Timescale))
+			if stsd := mdia.Minf.Stbl.Stsd; stsd != nil && len(stsd.Children) > 0 {
+				e["codec"] = stsd.Children[0].Type()
+			}
+			e["mdhd"] = mdia.Mdhd.GetLanguage()
+			e["ilang"] = e["mdhd"]
+			if mdia.Elng != nil {
+				e["elng"] = mdia.Elng.Language
+				e["ilang"] = mdia.Elng.Language
+			}
+			if init.Moov.Mvex != nil {
+				trex = init.Moov.Mvex.Trex
+			}
+		}
+	}
+	d.inc("inits", 1)
+	return trex, e, project.Digest(r.Body)
+}
+
 // subURL builds the URL of subtitle segment n. In $Time$ mode the time value is taken from the text timeline
 // of the MPD served at `now` (the entry at the position of the video entry of segment n), as a client would;
 // mpdSt is the status of that MPD request (0 = none made).  When the MPD cannot be used and the segment starts on
 // a whole millisecond, the URL is built from that millisecond value, otherwise from the decode time of the same segment
 // served under $Number$ addressing (fallback = true).
 func (d *driver) subURL(s scen, rt *project.RepTruth, trex *mp4.TrexBox, c tl.Cfg, n int64, now int64) (url string, mpdSt int, mpdURL string, fallback bool, err error) {
-	rep := "time" + s.fmt + "-" + s.lang
+	rep := s.rep()
 	if s.mode != "time" {
 		return fmt.Sprintf("%s/%s/%d.m4s", c.Prefix(s.a.Name), rep, n+c.EffSNR()), 0, "", false, nil
 	}
@@ -303,8 +351,11 @@ func Main(args []string) error {
 	d := &driver{env: env, cnt: map[string]int{}}
 
 	var jobs []scen
-	pick := func(a *tl.Asset, f string, c int, mode string, ast int64, li int, lang string, reg int) scen {
-		s := scen{a: a, fmt: f, c: c, mode: mode, ast: ast, langs: langSets[li], lang: lang, reg: reg, sd: rng.Int63()}
+	// class: see langSets; the requested language is drawn from the chosen set
+	pick := func(a *tl.Asset, f string, c int, mode string, ast int64, class int, reg int) scen {
+		sets := langSets[class]
+		ls := sets[rng.Intn(len(sets))]
+		s := scen{a: a, fmt: f, c: c, mode: mode, ast: ast, langs: ls, lang: ls[rng.Intn(len(ls))], reg: reg, sd: rng.Int63()}
 		s.snr = []int{-1, 1, 5, -1}[rng.Intn(4)]
 		s.tsbd = []int{20, 20, -1}[rng.Intn(3)]
 		s.cOmit = c == 900 && rng.Intn(2) == 0
@@ -314,18 +365,12 @@ func Main(args []string) error {
 	if *thorough {
 		for _, a := range env.Assets {
 			for _, f := range []string{"stpp", "wvtt"} {
-				for _, lang := range []string{"en", "sv", "xx"} {
+				for class := 0; class < 3; class++ {
 					for _, c := range cueDurs {
 						for reg := 0; reg < 2; reg++ {
 							for _, mode := range modes {
 								for _, ast := range starts {
-									li := 0
-									if lang == "xx" && rng.Intn(2) == 0 {
-										li = 1
-									} else if lang != "xx" && rng.Intn(3) == 0 {
-										li = 2
-									}
-									jobs = append(jobs, pick(a, f, c, mode, ast, li, lang, reg))
+									jobs = append(jobs, pick(a, f, c, mode, ast, class, reg))
 								}
 							}
 						}
@@ -340,9 +385,18 @@ func Main(args []string) error {
 				for _, c := range cueDurs {
 					for _, mode := range modes {
 						x++
-						li := x % 3
-						ls := langSets[li]
-						jobs = append(jobs, pick(a, f, c, mode, starts[(x/3)%3], li, ls[rng.Intn(len(ls))], rng.Intn(2)))
+						jobs = append(jobs, pick(a, f, c, mode, starts[(x/3)%3], x%3, rng.Intn(2)))
+					}
+				}
+			}
+		}
+		// every language class x format x MPD type at least once whatever the rotation above gives
+		for class := 0; class < 3; class++ {
+			for _, f := range []string{"stpp", "wvtt"} {
+				for _, mode := range modes {
+					for range langSets[class] {
+						a := env.Assets[rng.Intn(len(env.Assets))]
+						jobs = append(jobs, pick(a, f, []int{100, 900, 1000}[rng.Intn(3)], mode, starts[rng.Intn(3)], class, rng.Intn(2)))
 					}
 				}
 			}
@@ -350,11 +404,9 @@ func Main(args []string) error {
 		// seeded extras with other cue durations
 		for j := 0; j < 120; j++ {
 			a := env.Assets[rng.Intn(len(env.Assets))]
-			li := rng.Intn(3)
-			ls := langSets[li]
 			c := []int{1 + rng.Intn(1000), 1 + rng.Intn(1000), 1001 + rng.Intn(4000)}[rng.Intn(3)]
 			ast := []int64{0, 7, 1000, 1_600_000_000 + int64(rng.Intn(100_000_000))}[rng.Intn(4)]
-			jobs = append(jobs, pick(a, []string{"stpp", "wvtt"}[rng.Intn(2)], c, modes[rng.Intn(3)], ast, li, ls[rng.Intn(len(ls))], rng.Intn(2)))
+			jobs = append(jobs, pick(a, []string{"stpp", "wvtt"}[rng.Intn(2)], c, modes[rng.Intn(3)], ast, rng.Intn(3), rng.Intn(2)))
 		}
 	}
 
@@ -368,27 +420,10 @@ func Main(args []string) error {
 		c := s.cfg(s.reg)
 		N := int64(rt.N)
 		emit(tl.HeaderE(idx, a, rt, c, tr.E{"fmt": s.fmt, "lang": s.lang, "langs": s.langs, "c": s.c, "reg": s.reg}))
-		rep := "time" + s.fmt + "-" + s.lang
+		rep := s.rep()
 		// init segment
-		var trex *mp4.TrexBox
-		{
-			u := fmt.Sprintf("%s/%s/init.mp4?nowMS=%d", c.Prefix(a.Name), rep, s.ast*1000+10_000)
-			r := env.S.Get(u)
-			e := tr.E{"ev": "init", "st": r.Status, "ts": 0, "codec": "", "url": u}
-			if r.Status == 200 {
-				if init, err := project.ParseInit(r.Body); err == nil && init.Moov != nil && init.Moov.Trak != nil {
-					e["ts"] = clamp(int64(init.Moov.Trak.Mdia.Mdhd.Timescale))
-					if stsd := init.Moov.Trak.Mdia.Minf.Stbl.Stsd; stsd != nil && len(stsd.Children) > 0 {
-						e["codec"] = stsd.Children[0].Type()
-					}
-					if init.Moov.Mvex != nil {
-						trex = init.Moov.Mvex.Trex
-					}
-				}
-			}
-			emit(e)
-			d.inc("inits", 1)
-		}
+		trex, ie, _ := d.fetchInit(s, c)
+		emit(ie)
 		// segment indices: loop start/end, wraps, seeded indices over many wraps (all phases), a year-2025 index
 		ns := []int64{0, int64(rng.Intn(int(N))), N - 1, N, 3*N + int64(rng.Intn(int(N))), int64(rng.Intn(int(60 * N))), int64(rng.Intn(int(1000 * N))),
 			int64(rng.Intn(int(1000 * N))), int64(rng.Intn(int(100000 * N)))}
@@ -399,7 +434,7 @@ func Main(args []string) error {
 		}
 		seen := map[int64]bool{}
 		var pairDone, mpdBad bool
-		var mpdNow int64 = -1
+		var mpdNow, mpdN int64 = -1, 0
 		for _, n := range ns {
 			if seen[n] {
 				continue
@@ -445,7 +480,7 @@ func Main(args []string) error {
 			}
 			mu.Unlock()
 			if mpdNow < 0 || rng.Intn(3) == 0 {
-				mpdNow = now
+				mpdNow, mpdN = now, n
 			}
 			// the same segment with the other region setting
 			// (a wvtt segment without cues carries no region designation at all: take another index)
@@ -499,6 +534,44 @@ func Main(args []string) error {
 					d.inc("mpds_not_200", 1)
 				}
 			}
+			// every Representation this MPD announces: init + the media segment mpdN, addressed by the announced id
+			if ok && r.Status == 200 {
+				_, txt, _ := parseMPD(r.Body)
+				reps := []any{}
+				for _, t := range txt {
+					s2 := s
+					s2.lang, s2.repID = t.lang, t.rep
+					trex2, ie, idig := d.fetchInit(s2, c)
+					emit(ie)
+					row := map[string]any{"lang": t.lang, "rep": t.rep, "ist": ie["st"], "mst": 0, "idig": idig, "mdig": "", "nc": 0}
+					url, _, _, _, err := d.subURL(s2, rt, trex2, c, mpdN, mpdNow)
+					if err == nil {
+						res := d.fetchSub(s2, rt, trex2, url+fmt.Sprintf("?nowMS=%d", mpdNow), mpdN, c)
+						emit(res.ev)
+						row["mst"], row["mdig"], row["nc"] = res.ev["st"], res.bodyDig, res.ncues
+						d.inc("subs", 1)
+						d.inc("sweep_subs", 1)
+						if res.ev["st"] == 200 {
+							d.inc("subs_200", 1)
+						}
+						if strings.Contains(t.lang, "-") {
+							d.inc("sweep_subs_subtag_lang", 1)
+						}
+						mu.Lock()
+						distinct[fmt.Sprintf("%s|%v|%d", a.Name, c.Parts(), mpdN)+t.lang] = true
+						mu.Unlock()
+					} else {
+						d.inc("time_url_unresolved", 1)
+						row["mst"] = -1
+					}
+					reps = append(reps, row)
+				}
+				emit(tr.E{"ev": "lset", "reps": reps, "url": u})
+				d.inc("lsets", 1)
+				if len(reps) > 1 {
+					d.inc("lsets_multi", 1)
+				}
+			}
 		}
 	})
 	if err := w.Close(); err != nil {
@@ -509,7 +582,7 @@ func Main(args []string) error {
 		st[k] = v
 	}
 	for _, k := range []string{"subs", "subs_200", "subs_stpp", "subs_wvtt", "subs_number", "subs_time", "subs_tlnr", "cues", "vtte_samples", "subs_start_inside_second",
-		"subs_far", "regpairs", "mpds", "inits", "time_url_unresolved", "time_url_fallback", "mpds_not_200", "mpd_unusable", "mpd_timeline_entries"} {
+		"subs_far", "regpairs", "mpds", "inits", "time_url_unresolved", "time_url_fallback", "mpds_not_200", "mpd_unusable", "mpd_timeline_entries", "sweep_subs", "sweep_subs_subtag_lang", "lsets", "lsets_multi"} {
 		if _, ok := st[k]; !ok {
 			st[k] = 0
 		}
